@@ -4,7 +4,7 @@ from ..core import Violation
 from .. import protocol, sendfeed, pipeline, pairfeed, netstall, netbal
 
 ID = 'C04'
-PROP_FILES = ['C04', 'C04Potential', 'C04Pair', 'C04Loop', 'C04NetRecv', 'C04NetSend', 'C04NetInv', 'C04NetTee', 'C04Net', 'SendBalLemmas', 'SendBalInv', 'SendPubLemmas', 'C04OnePublish', 'C04TreeInv', 'C04Tree', 'C04NetBalInv', 'C04NetBal']
+PROP_FILES = ['C04', 'C04Potential', 'C04Pair', 'C04Loop', 'C04NetRecv', 'C04NetSend', 'C04NetInv', 'C04NetTee', 'C04Net', 'SendBalLemmas', 'SendBalInv', 'SendPubLemmas', 'C04OnePublish', 'C04TreeInv', 'C04Tree', 'C04NetBalInv', 'C04NetBal', 'C04NetBalRejoin', 'C04NetBalPhi', 'C04NetBalDrain', 'C04NetBalQueued', 'C04NetBalReqs', 'C04NetBalReachInv', 'C04NetBalReach']
 MODULES = ['OFModel.Zmq.Sender', 'OFModel.Zmq.Receiver', 'OFModel.Zmq.Pair', 'OFModel.Zmq.Net', 'OFModel.FilterLoop', 'OFModel.Gen.Facts']
 RULE = ('adversarial request feeds of a real non-balanced ZMQSender with 1-4 clients (sync and ephemeral), duplicated / stale / ahead requests, clock steps up to and '
         'beyond the connection time-out; for every synchronised client the feed is cut after its last request (= the stall point) and the publishes made while '
@@ -14,7 +14,7 @@ RULE = ('adversarial request feeds of a real non-balanced ZMQSender with 1-4 cli
         'send.run compares every call of the feed with the real class.  Closed loop (OFProps/C04Pair.lean): a REAL ZMQSender and a REAL '
         'ZMQReceiver wired through fakezmq run a random reachable prefix (restarts anywhere), then the consumer stalls for N in {5, 50, 500} send calls (clock steps up to and beyond the '
         'connection time-out); oracle pair-overrun-after-stall: more than one frame set published (none if one is already waiting), or more than one queued at the real SUB socket; '
-        'the same schedule through OF.Pair, compared event by event.  Consumer behind a relay (OFProps/C04Loop.lean): the real Filter.run / Filter.init / loop_once of a relay whose mq.send is blocked b times (and whose mq.recv is empty b times), for every combination of sources_timeout / outputs_timeout in {absent, 0, 50, 100, 150, 250, 1000} ms: attempts made and whether the loop gave the frame up, compared with OF.Loop.waitLoop; oracle relay-gives-up-blocked-send: without outputs_timeout a relay never goes back to recv while its send is blocked.  Network level (OFProps/C04Net.lean, harness/ofverif/netstall.py): 2-5 REAL MQ objects of a chain (forwarding relays, any source, victim = the sink or a relay) or of a tee (a hub with 2-4 consumers, one of them the victim) on fakezmq: random restart-free reachable prefix, then the victim takes no step for N in {20, 200} scheduler rounds while all others step in random order; oracle net-overrun-after-stall: chain - node j published more than 1 + 2 (K - 1 - j) sets or a SUB socket holds more than one unreturned frame set; tee - a hub that tracks the victim published more than ONE set (clock readings within one connection time-out); tree (OFProps/C04Tree.lean: source, 1-3 levels of relays, 1-3 consumers per publisher, victim at any depth) - the ancestor at distance d published more than 1 + 2 (d - 1) sets although every edge of the path was tracked when the stall began and the clock readings stayed within the time-out, or a node fed through it was handed more than that plus what was on its way, or the conservation law of an edge (handed + queued after = queued before + published) fails; the same schedule through OF.Net (driver op net.run), compared event by event.  Balanced network (OFProps/C04NetBal.lean, harness/ofverif/netbal.py stall trials): REAL MQ objects of splitter S (outs_balance, 2-4 outputs) -> workers -> balanced rejoin J: random restart-free reachable prefix, then ONE worker or the rejoin makes no event for 20 / 200 scheduler rounds while the others step in random order (10 %: the clock jumps beyond the connection time-out: S evicts the worker); oracle netbal-overrun-after-stall: S put more than ONE further id on the output of a stalled worker it tracked (proved when no request of that worker was queued: C04_netbal_worker_stall_bounded_partial), or - rejoin stalled - a worker published more than one further set / S more than 2 further ids per output (measured constants, kernel-evaluated on the model, not proved); the same schedule through OF.NetBal (driver op netb.run), compared event by event.  non-trivial = at least one publish / a blocked attempt')
+        'the same schedule through OF.Pair, compared event by event.  Consumer behind a relay (OFProps/C04Loop.lean): the real Filter.run / Filter.init / loop_once of a relay whose mq.send is blocked b times (and whose mq.recv is empty b times), for every combination of sources_timeout / outputs_timeout in {absent, 0, 50, 100, 150, 250, 1000} ms: attempts made and whether the loop gave the frame up, compared with OF.Loop.waitLoop; oracle relay-gives-up-blocked-send: without outputs_timeout a relay never goes back to recv while its send is blocked.  Network level (OFProps/C04Net.lean, harness/ofverif/netstall.py): 2-5 REAL MQ objects of a chain (forwarding relays, any source, victim = the sink or a relay) or of a tee (a hub with 2-4 consumers, one of them the victim) on fakezmq: random restart-free reachable prefix, then the victim takes no step for N in {20, 200} scheduler rounds while all others step in random order; oracle net-overrun-after-stall: chain - node j published more than 1 + 2 (K - 1 - j) sets or a SUB socket holds more than one unreturned frame set; tee - a hub that tracks the victim published more than ONE set (clock readings within one connection time-out); tree (OFProps/C04Tree.lean: source, 1-3 levels of relays, 1-3 consumers per publisher, victim at any depth) - the ancestor at distance d published more than 1 + 2 (d - 1) sets although every edge of the path was tracked when the stall began and the clock readings stayed within the time-out, or a node fed through it was handed more than that plus what was on its way, or the conservation law of an edge (handed + queued after = queued before + published) fails; the same schedule through OF.Net (driver op net.run), compared event by event.  Balanced network (OFProps/C04NetBal.lean, harness/ofverif/netbal.py stall trials): REAL MQ objects of splitter S (outs_balance, 2-4 outputs) -> workers -> balanced rejoin J: random restart-free reachable prefix, then ONE worker or the rejoin makes no event for 20 / 200 scheduler rounds while the others step in random order (10 %: the clock jumps beyond the connection time-out: S evicts the worker); oracle netbal-overrun-after-stall: S put more than ONE further id on the output of a stalled worker it tracked (proved from the state hypothesis [S tracks the worker, its queued requests - any number - are ordinary]: C04_netbal_worker_stall_queued_bounded_partial, OFProps/C04NetBalQueued.lean; derived from reachability for every restart-free reachable state in which S has an entry for the worker: C04_netbal_stall_bounded_reachable, OFProps/C04NetBalReach.lean), or - rejoin stalled - a worker published more than one further set (proved from [the worker tracks J]: C04_netbal_rejoin_stall_workers_partial, OFProps/C04NetBalRejoin.lean; for every restart-free reachable state in which the worker has an entry for J: C04_netbal_rejoin_stall_workers_reachable) / S more than 2 further ids per output (measured constant, kernel-evaluated on the model, not proved); the same schedule through OF.NetBal (driver op netb.run), compared event by event.  non-trivial = at least one publish / a blocked attempt')
 ASSUMPTIONS = ['one publish per request (C04_one_publish_per_request, C04_bounded_publishes_any): every event sequence, balanced or not, any number of clients and outputs; hypotheses: no call in push mode (push publishes without a request by definition; kernel-evaluated witness), start state satisfies PInv (distinct client keys + the readiness invariants; true of a new sender, kept by every event)', 'sender-level statement for any number of clients: requests in flight in the network and the receiver\'s request rate (one per poll interval + one prefetch) are explored by the '
                'pipeline simulation (MQNet), not proved; closed loop proved for the pair of one publisher and one synchronised consumer (C04_pair_stall_bounded: at most ONE more frame set, for every '
                'reachable state and every stall length; C04_pair_one_block_in_flight; C04_pair_resumes), immediate loss-free delivery, libzmq timing not modelled', 'network level (C04_net_chain_stall_bounded): chains of any length whose relays forward every set (a relay that drops sets legitimately keeps its publisher going), non-empty topic names, states reachable WITHOUT restarts (with restarts ids are not in lock-step; the pair theorem covers restarts for one edge), any clock readings; one of several consumers (C04_net_tee_stall_bounded_partial): any topology and state, hypotheses: the publisher tracks the stalled consumer, none of its queued requests is a CLOSE, clock readings within one connection time-out of its last request; resume at network level only as a kernel-evaluated example (two-level trees: C04_net_tree_resumes_star); trees (C04_net_tree_stall_bounded): any tree, ProcNames, states reachable without restarts, hypotheses: each of the d nearest ancestors tracks the next node on the path, the relays in between forward every set, their clock readings stay within one connection time-out (in a tree an evicted consumer releases its publisher for the siblings: C06)', 'libzmq replaced by the in-process fake']
